@@ -11,8 +11,8 @@ PROPS = {
     'C04': dict(
         units=['builder'],
         deps=[],
-        witness=['c04', '--no-c15'],
-        witness_thorough=['c04', '--no-c15', '--depth', '3', '--random', '300000'],
+        witness=[['c04', '--no-c15'], ['c02', '--random', '20000']],
+        witness_thorough=[['c04', '--no-c15', '--depth', '3', '--random', '300000'], ['c02', '--random', '400000']],
         level='proof',
         technique='Verus contracts (requires/ensures/decreases + builder invariant) on the real push_* functions, extracted each run',
         claim='Unbounded deductive proof (Verus/Z3) that every gate-emitting function of the real CircuitBuilder returns a wire whose '
@@ -25,7 +25,7 @@ PROPS = {
              'search only), composition over compile.',
         title='optimisations never change the computed function (gate emission: every push_* returns a wire '
               'computing the literal operation, for every builder state and input assignment; dedup on and off)',
-        unverified=['remove_unused_gates and build (wire renumbering, pruning): differential search only, not proved',
+        unverified=['remove_unused_gates and build (wire renumbering, pruning, panic-record wiring): two bounded differential searches (request sequences; panic operation trees with distinct location fields), not proved',
                     'composition over TypedExpr::compile'],
     ),
     'C15': dict(
@@ -194,7 +194,8 @@ PROPS = {
     'C12': dict(
         units=['consts'],
         deps=[],
-        witness=None,
+        witness=['c12', '--random', '1500'],
+        witness_thorough=['c12', '--random', '60000'],
         level='proof',
         technique='Verus contracts on the arithmetic arms of resolve_const_expr_{usize,unsigned,signed} (macro instantiated by R6, arms lifted by R5) against a recursive spec function',
         claim='Deductive proof (Verus/Z3), for every expression tree and every constant assignment, that each arithmetic arm of the three instances of '
@@ -202,7 +203,8 @@ PROPS = {
               'minimum of the arguments, + and - wrap in the constant\'s type; the recursive calls are assumed by the same contract (structural '
               'induction). The two lookup arms (format! + HashMap<String,_>) are trusted; substitution equivalence of whole programs, array sizes / '
               'loop counts / party numbers following the constants and the reporting of missing or mistyped constants (compile_with_constants) are '
-              'NOT under contract.',
+              'NOT under contract; a bounded differential through compile_with_constants + eval compares random constant expressions over 9 integer '
+              'types with substitution semantics and checks missing / mistyped / extra constants (error, never a panic).',
         note='Trusted: lookup arms (uninterpreted); std::cmp::max / min specification (assume_specification); vstd. Rules R5, R6, R7.',
         title='const expressions: literal / min / max / wrapping + and - arms equal the spec evaluation, for all trees and assignments (3 instances)',
         unverified=['ExternalValue / ConstExprIdent lookup arms', 'compile_with_constants (const_deps, const_sizes, error reporting)',
